@@ -14,6 +14,7 @@ ensures
       the variant does not provide is refused (documented exception: time-like matching beyond NLO);
   (c) refusals that the documentation promises: polarised AND time-like; polarised beyond NNLO; QED singlet / valence with a method other than
       iterate-exact.
+  (e) the expansion order ev_op_max_order of the perturbative singlet kernels (a runcard setting): every value either works or is refused.
   (d) no nan from constants: with the literature beta vector (nf 3-6) no real-typed np.sqrt / np.log in the closed-form kernels receives a negative constant.
 Not covered: finiteness of the floating-point results beyond (d), the runner above the kernels, Couplings / MSbar numerics.
 """
@@ -70,6 +71,16 @@ def replay():
                     except (NotImplementedError, ValueError):
                         continue
                     if not (np.all(np.isfinite(k1)) and np.all(np.isfinite(k2))): out.append(f"nf={nf} order={order} {m.name}: non-finite kernel ({k1})")
+    for order in (2, 3, 4):
+        for mo in (1, 2, 3, 6):
+            for m in (EvoMethods.PERTURBATIVE_EXACT, EvoMethods.PERTURBATIVE_EXPANDED):
+                G = (rng.normal(size=(order, 2, 2)) + 0j)
+                try:
+                    s.dispatcher((order, 0), m, G, 0.02, 0.03, 4, 1, (mo, 0))
+                except (NotImplementedError, ValueError):
+                    pass
+                except Exception as e:
+                    out.append(f"order={order} ev_op_max_order={mo} {m.name}: {type(e).__name__}: {e}")
     return bool(out), "; ".join(out[:5]) if out else "dispatchers fill every slot or refuse; kernels finite"
 '''
 
@@ -134,6 +145,33 @@ def run(chk):
                            goal="with the literature beta coefficients no real-typed np.sqrt / np.log receives a negative constant (which numpy turns into nan) in any kernel", detail="; ".join(bad[:3]))
     finally:
         e4.roots = saved_roots
+
+    # ---- (e) the expansion order of the perturbative singlet kernels is a runcard setting too: every value either works or is refused ----------------
+    Gnum = np.empty((4, 2, 2), dtype=object)
+    for k in range(4):
+        Gnum[k] = np.array([[Q(1 + k, 3), Q(2, 5 + k)], [Q(-1, 2 + k), Q(3 + k, 7)]], dtype=object)
+    saved_em = ad_mod = None
+    import ekore.anomalous_dimensions as ad_mod
+    saved_em = ad_mod.exp_matrix_2D
+    ad_mod.exp_matrix_2D = lambda M: (np.array([[T.app("em00", *[T.lift(x) for x in np.asarray(M, dtype=object).ravel()]), Q(0)], [Q(0), Q(1)]], dtype=object), None, None)
+    try:
+        for order in (2, 3, 4):
+            for mo in (1, 2, 3, 4, 6):
+                bad = []
+                for m in (EvoMethods.PERTURBATIVE_EXACT, EvoMethods.PERTURBATIVE_EXPANDED):
+                    try:
+                        s.dispatcher((order, 0), m, Gnum[:order].copy(), Q(1, 60), Q(1, 40), 4, 1, (mo, 0))
+                    except (NotImplementedError, ValueError) as e:
+                        if not str(e).strip():
+                            bad.append(f"{m.name}: refusal without a message")
+                    except T.Unsupported:
+                        raise
+                    except Exception as e:
+                        bad.append(f"{m.name}: {type(e).__name__}: {e}")
+                chk.ground(f"C04.expansion_order[order=({order},0),ev_op_max_order=({mo},0)]", not bad, fn="eko.kernels.singlet:r_vec", replay=rp,
+                           goal="perturbative singlet kernels: every ev_op_max_order either works or is refused with ValueError / NotImplementedError", detail="; ".join(bad))
+    finally:
+        ad_mod.exp_matrix_2D = saved_em
 
     # ---- stubs for the leaves ------------------------------------------------------------------------------------------------------------------
     saved = []
